@@ -53,24 +53,35 @@ Proof. intros [out o] H E. unfold final in H. simpl in *. subst o. exact H. Qed.
 Lemma defined_final : forall o, defined o = true -> final o.
 Proof. intros [out [z|w|w|]]; unfold defined, final; simpl; intros H; try discriminate; exact I. Qed.
 
-(* data values: no closure, no thunk (continuations in fields are allowed) *)
+(* data values: integers and constructor values whose fields are data values (no closure, no thunk,
+   no continuation stored in a field); [dbv]: what an environment may bind in the fragment - a data
+   value or a continuation (label) *)
 Fixpoint dval (v : fval) : Prop :=
   match v with
   | FvInt _ => True
-  | FvCtor _ args => (fix go (l : list fbv) : Prop := match l with [] => True | b :: r => dbv b /\ go r end) args
+  | FvCtor _ args =>
+      (fix go (l : list fbv) : Prop :=
+         match l with
+         | [] => True
+         | FbP v' :: r => dval v' /\ go r
+         | FbK _ :: _ => False
+         end) args
   | _ => False
-  end
-with dbv (b : fbv) : Prop :=
-  match b with FbP v => dval v | FbK _ => True end.
-Definition dbvs (l : list fbv) : Prop := Forall dbv l.
-Lemma dval_ctor : forall tag args, dval (FvCtor tag args) <-> Forall dbv args.
+  end.
+Definition dfield (b : fbv) : Prop := match b with FbP v => dval v | FbK _ => False end.
+Definition dbv (b : fbv) : Prop := match b with FbP v => dval v | FbK _ => True end.
+Lemma dval_ctor : forall tag args, dval (FvCtor tag args) <-> Forall dfield args.
 Proof.
   intros tag args. simpl. induction args as [|b r IH].
   - split; [constructor | auto].
-  - split.
-    + intros [H1 H2]. constructor; [exact H1 | apply IH; exact H2].
-    + intros H. inversion H; subst. split; [assumption | apply IH; assumption].
+  - destruct b as [v|k]; simpl.
+    + split.
+      * intros [H1 H2]. constructor; [exact H1 | apply IH; exact H2].
+      * intros H. inversion H; subst. split; [assumption | apply IH; assumption].
+    + split; [intros [] | intros H; inversion H; subst; contradiction].
 Qed.
+Lemma dfield_dbv : forall b, dfield b -> dbv b.
+Proof. intros [v|k] H; simpl in *; [exact H | exact I]. Qed.
 
 Section Rel.
   Variable p : fcprog.
